@@ -1,5 +1,5 @@
 """C06 - inline and dynamic constraints bind to exactly one call and to the right object."""
-from .. import engine, fam_mc, fam_inst, fam_soft
+from .. import engine, fam_mc, fam_inst, fam_soft, fam_fault
 
 LEVEL = "model_checking"
 
@@ -10,6 +10,8 @@ def run(tier, seed, limit=0):
     # a dynamic block with a soft constraint referenced before a conflicting inline soft, repeated: nothing of a call may
     # survive into the next one (soft priorities included)
     scs += [x for x in fam_soft.family_soft_struct(tier, seed) if "/dyn_soft/" in x["id"]]
+    # with-blocks abandoned by a user exception: nothing written in them may rule a later block, on this or another object
+    scs += fam_fault.family_F(tier, seed, n=8 if tier == "quick" else 80)
     mc_scs, sim_states = fam_mc.family_mc(tier, seed)          # TLC-generated behaviours of MC_VscRand, replayed
     scs = scs + mc_scs
     chk.extra_cov["tlc_generated_histories_replayed"] = len(mc_scs)
